@@ -7,11 +7,11 @@ echo "== confirm in worktree $WT"
 cd $WT || exit 1
 git diff --stat | tail -1
 /venv/bin/python -m pytest -q -p no:cacheprovider --timeout=900 2>&1 | grep -E "passed|failed" | tail -1
-(cd $WT && /venv/bin/python $OUT/demo.py >/dev/null 2>&1; echo "demo with change: exit $?")
-git apply -R $OUT/patch.diff && (cd $WT && /venv/bin/python $OUT/demo.py >/dev/null 2>&1; echo "demo without change: exit $?"); git apply $OUT/patch.diff
+(cd $WT && PYTHONPATH=$WT /venv/bin/python $OUT/demo.py >/dev/null 2>&1; echo "demo with change: exit $?")
+git apply -R $OUT/patch.diff && (cd $WT && PYTHONPATH=$WT /venv/bin/python $OUT/demo.py >/dev/null 2>&1; echo "demo without change: exit $?"); git apply $OUT/patch.diff
 echo "== checks against /repo with the patch"
 cd /repo && git apply $OUT/patch.diff || { echo "patch does not apply to /repo"; exit 1; }
-cd /verif
+cd ${VERIF_DIR:-/verif}
 for c in "$@"; do
   timeout 1200 /venv/bin/python harness/check.py $c > $OUT/check_$c.txt 2>&1; rc=$?
   echo "check $c rc=$rc $(grep -c '^VIOLATION' $OUT/check_$c.txt) violation line(s): $(grep '^VIOLATION' $OUT/check_$c.txt | head -2 | tr '\n' ' ')"
